@@ -6,7 +6,7 @@ from . import langlib
 from .c03 import validate
 
 TAGS = {"snapshot-crash", "restore-rejects-own-snapshot", "restored-variables-differ", "behaviour-differs-after-restore", "crash-after-restore",
-        "behaviour-differs-after-restore-of-shared-containers", "serialisation-crash", "unrepresentable-value-serialised", "unrepresentable-variable-serialised"}
+        "behaviour-differs-after-restore-of-shared-containers", "behaviour-differs-after-restore-of-bodies-compiled-under-other-flags", "serialisation-crash", "unrepresentable-value-serialised", "unrepresentable-variable-serialised"}
 
 
 def run(rep, tier, seed):
@@ -32,7 +32,8 @@ def run(rep, tier, seed):
             cyc = w.path("cyc.ndjson")
             pc = run_vh(["c09-cycles", "-out", cyc], check=False)
             if pc.returncode != 0:
-                for i in range(12):
+                nscripts = json.loads(run_vh(["c09-cycles", "-count"]).stdout.strip().splitlines()[-1])["scripts"]
+                for i in range(nscripts):
                     one = w.path("cyc1.ndjson")
                     p1 = run_vh(["c09-cycles", "-out", one, "-only", str(i)], check=False)
                     if p1.returncode != 0:
